@@ -13,6 +13,8 @@ var props = map[string]struct {
 	fn    func(*h.Run)
 }{
 	"dbg-lo": {"other", h.DebugLO},
+	"dbg-rep": {"other", h.DebugRepeat},
+	"dbg-c09": {"other", h.DebugC09},
 	"C01":    {"exploration", h.C01},
 	"C02":    {"exploration", h.C02},
 	"C03":    {"exploration", h.C03},
@@ -20,6 +22,10 @@ var props = map[string]struct {
 	"C05":    {"exploration", h.C05},
 	"C06":    {"exploration", h.C06},
 	"C07":    {"exploration", h.C07},
+	"C08":    {"exploration", h.C08},
+	"C09":    {"fault_enumeration", h.C09},
+	"C10":    {"exploration", h.C10},
+	"C11":    {"exploration", h.C11},
 	"C12":    {"model_checking", h.C12},
 	"C22":    {"model_checking", h.C22},
 	"C14":    {"model_checking", h.C14},
